@@ -382,6 +382,19 @@ class Folder:
                 return {"float": float, "str": str, "repr": repr, "bytes": bytes}[fn.id](v)
             except Exception as e:  # noqa
                 raise Unfoldable(str(e))
+        if isinstance(fn, ast.Attribute) and isinstance(fn.value, ast.Name) and fn.value.id in ("bytes", "bytearray", "int") and not expr.keywords \
+                and (fn.value.id, fn.attr) in (("bytes", "hex"), ("bytes", "fromhex"), ("bytearray", "fromhex"), ("int", "from_bytes"), ("int", "to_bytes")):
+            try:
+                got = self.lookup_name(fn.value.id, scope)
+                shadowed = not (got[0] == "val" and got[1] in (bytes, bytearray, int))
+            except Unfoldable:
+                shadowed = False
+            if not shadowed:
+                args = [self.fold(a, scope) for a in expr.args]
+                try:
+                    return getattr({"bytes": bytes, "bytearray": bytearray, "int": int}[fn.value.id], fn.attr)(*args)
+                except Exception as e:  # noqa
+                    raise Unfoldable(str(e))
         if isinstance(fn, ast.Attribute) and fn.attr in ("items", "keys", "values") and not expr.args:
             base = self.fold(fn.value, scope)
             if isinstance(base, dict):
